@@ -10,7 +10,7 @@ CONSTANT Thorough
 \* byte strings
 A == <<97>>                  B == <<98>>                K == <<107>>               V == <<118>>
 XY == <<120, 32, 121>>       UUML == <<195, 188>>       PCT == <<97, 37, 98>>      QM == <<113, 63, 109>>
-HASH == <<35, 104>>          PLUS == <<97, 43, 98>>     AMP == <<49, 38, 50, 61, 51>>  SL == <<97, 47, 98>>
+HASH == <<35, 104>>          PLUS == <<97, 43, 98>>    SUBD == <<33, 36, 38, 39, 40, 41, 42, 43, 44, 59, 61, 58, 64>>     AMP == <<49, 38, 50, 61, 51>>  SL == <<97, 47, 98>>
 K1 == <<107, 49>>            K2 == <<107, 50>>          V1 == <<118, 49>>          V2 == <<118, 50, 32, 122>>
 EMPTY == <<>>                LONG == [i \in 1..300 |-> 97 + (i % 26)]
 HXTEST == <<88, 45, 84, 101, 115, 116>>                                  \* X-Test
@@ -22,7 +22,7 @@ GET == "GET"
 BaseReq == [method |-> "GET", segs |-> <<A>>, query |-> <<>>, headers |-> <<>>, blen |-> 0, bseed |-> 1, range |-> <<>>]
 BaseResp == [code |-> 200, headers |-> <<>>, kind |-> "bytes", blen |-> 5, bseed |-> 7, json |-> 0, fsize |-> 0]
 
-Paths == << <<>>, <<A>>, <<A, B>>, <<XY>>, <<UUML>>, <<PCT>>, <<QM>>, <<HASH>>, <<PLUS>>, <<A, XY, UUML>>, <<LONG>> >>
+Paths == << <<>>, <<A>>, <<A, B>>, <<XY>>, <<UUML>>, <<PCT>>, <<QM>>, <<HASH>>, <<PLUS>>, <<SUBD>>, <<A, PLUS, SUBD>>, <<A, XY, UUML>>, <<LONG>> >>
 Queries == << <<>>, << <<K, V>> >>, << <<K, XY>> >>, << <<XY, AMP>> >>, << <<K1, V1>>, <<K2, V2>> >>, << <<K, EMPTY>> >>,
               << <<K, UUML>> >>, << <<K, PCT>> >>, << <<K, LONG>> >> >>
 Headers == << <<>>, << <<HXTEST, HVAL1>> >>, << <<HLOWER, HVAL2>> >>, << <<HXTEST, HVAL2>>, <<HLOWER, HVAL1>> >> >>
@@ -39,7 +39,7 @@ Ranges == LET pairs == {<<b, e>> : b \in 0..(FSize - 1), e \in 0..(FSize - 1)} I
           SetToSeq({p \in pairs : p[1] <= p[2]}) \o << <<0, -1>>, <<5, -1>>, <<9, -1>>, <<3, 20>>, <<9, 10>>, <<10, 12>>, <<12, -1>>, <<200, 300>> >>
 
 Map(seq, F(_)) == [i \in 1..Len(seq) |-> F(seq[i])]
-Case(req, resp) == [req |-> req, resp |-> resp, target |-> Target(req),
+Case(req, resp) == [req |-> req, resp |-> resp, target |-> Target(req), target2 |-> TargetLite(req),
                     hview |-> HandlerView(req), cview |-> ClientView(resp, req.range)]
 
 Cases ==
@@ -62,6 +62,7 @@ Cases ==
 
 \* sanity of the views themselves (checked as invariants while walking)
 ViewsOK(c) == /\ c.hview.path = PathOf(c.req)
+              /\ PctDec(c.target) = RawTarget(c.req) /\ PctDec(c.target2) = RawTarget(c.req)   \* both spellings denote the request
               /\ c.cview.code \in {200, 201, 206, 400, 404, 416, 500, 503}
               /\ (c.resp.kind = "file" /\ c.req.range # <<>> /\ c.cview.code = 206) =>
                      (c.cview.blen >= 1 /\ c.cview.from + c.cview.blen <= c.resp.fsize)
